@@ -408,8 +408,13 @@ def gen_sop(rng, r, p_series=0.35, bad_rate=0.06, max_rows=9):
             if malformed and m >= 1:
                 # neither m nor d values, nor m x d: refused
                 bad_len = max(m, d) + 1
-                return {'op': 'sset', 't': ti, 'name': name, 'depth': d, 'addr': addr,
-                        'value': {'k': 'perrow', 'vs': [pyobs.enc(1.0)] * bad_len}, 'malformed': True}
+                bad = {'k': 'perrow', 'vs': [pyobs.enc(1.0)] * bad_len}
+                if m >= 2 and d >= 2 and rng.random() < 0.5:
+                    # shapes that NumPy would broadcast but the column does not accept: one element, one row, 1 x 1
+                    bad = rng.choice([{'k': 'perrow', 'vs': [pyobs.enc(5.0)]},
+                                      {'k': 'matrix', 'rows': [[pyobs.enc(float(j + 1)) for j in range(d)]]},
+                                      {'k': 'matrix', 'rows': [[pyobs.enc(7.0)]]}])
+                return {'op': 'sset', 't': ti, 'name': name, 'depth': d, 'addr': addr, 'value': bad, 'malformed': True}
             return {'op': 'sset', 't': ti, 'name': name, 'depth': d, 'addr': addr, 'value': gen_svalue(rng, m, d)}
         if k == 'ssetsample':
             if n == 0 or d == 0:
